@@ -24,7 +24,7 @@ LEVEL_TEXT = ('Bounded-exhaustive model checking over the schedule dimension: ev
 LEVEL_NOTE = 'Trusted: list equality of items; the frame() output is taken from the real code.'
 TECHNIQUE = 'stateless bounded-exhaustive exploration of all chunk schedules against the identity round-trip'
 
-LINE_ALPHA = ['', 'a', 'bc', '\x02\x00\x00\x00ab', 'c\r', '\r']
+LINE_ALPHA = ['', 'a', 'bc', '\x02\x00\x00\x00ab', 'c\r', '\r', 'u\u2028v\x85\x0b\x0c\x1c']      # last: what str.splitlines() would break on
 LP_ALPHA = [b'', b'a', b'bc', b'x\ny']
 
 
